@@ -31,6 +31,9 @@ def main():
     import gen_geo
     r6 = gen_geo.generate(os.path.join(GEN, 'Geo.lean'))
     print('generated:', {'Geo': r6['unsupported']})
+    import gen_nitf_orient
+    r8 = gen_nitf_orient.generate(os.path.join(GEN, 'NitfOrient.lean'))
+    print('generated:', {'NitfOrient': r8['unsupported'], 'rows': r8['rows']})
     import gen_cphd
     r7 = gen_cphd.generate(os.path.join(GEN, 'CphdKernels.lean'))
     print('generated:', {'CphdKernels': r7['unsupported']})
